@@ -2,7 +2,7 @@
     IMPLEMENTATION returned) and correspondence of the Geom models with it ([corr_ok]).
     Imports only models and definitions (never a proof file). *)
 From Coq Require Import List ZArith Bool PrimFloat.
-From CGV Require Import Base.PyBase Geom.Num Gen.GeomGen Geom.IndexMap Geom.ForwardMap Geom.CoordDefs.
+From CGV Require Import Base.PyBase Geom.Num Gen.GeomGen Geom.IndexMap Geom.ForwardMap Geom.PySum Geom.CoordDefs.
 Import ListNotations.
 Open Scope Z_scope.
 
@@ -48,12 +48,9 @@ Fixpoint beads_tight (a b : list (Z * fvec3)) : bool :=
   | (k, p) :: a', (l, q) :: b' => Z.eqb k l && v3tight p q && beads_tight a' b'
   | _, _ => false
   end.
-(** /len(weights): numpy's element-wise operations are reproduced bit for bit.
-    /sum(weights.values()): CPython >= 3.12 sums floats with Neumaier compensation (and ints exactly), which the
-    plain left fold of the model does not reproduce to the last bit: the denominators may differ by an ulp, so
-    the comparison is relative 1e-12 for that variant (documented weakening, only for the repaired shape). *)
-Definition beads_agree (a b : list (Z * fvec3)) : bool :=
-  match fm_avg_mode with DivByLen => beads_eqb a b | DivBySum => beads_tight a b end.
+(** numpy's element-wise operations are reproduced bit for bit; the denominator sum(weights.values()) is CPython's
+    builtin sum() (ints exactly, floats Neumaier-compensated: Geom/PySum.v), so both shapes are compared bit for bit *)
+Definition beads_agree (a b : list (Z * fvec3)) : bool := beads_eqb a b.
 
 (** ---------- cases.  Exception codes: 0 none, 1 the exception the model can predict
     (KeyError for CEmbed/CFwd, NameError for CRound), 2 any other exception. *)
@@ -75,6 +72,7 @@ Inductive case :=
          (canon : list nat)              (* as in CEmbed *)
          (out_pos : list (Z * nat))      (* output node -> first RDKit atom whose conformer position it carries *)
 | CFwd (beads : list (Z * list (Z * float)))   (* coarse node -> weights dict of its `graph` *)
+       (ints : list (list bool))               (* per bead, per weight: is the Python value an int (CPython's sum()) *)
        (pos : list (Z * fvec3))                (* atom positions *)
        (t : fvec3)                             (* translation *)
        (exc : nat)
@@ -93,8 +91,9 @@ Definition own_ok (canon : list nat) (nodes : list Z) (obs : list (Z * nat)) : b
 (** ---------- correspondence *)
 Definition translate (t : fvec3) (pos : list (Z * fvec3)) : list (Z * fvec3) :=
   map (fun kp => (fst kp, v3add numF (snd kp) t)) pos.
-Definition fwd_model (beads : list (Z * list (Z * float))) (pos : list (Z * fvec3)) : res (list (Z * fvec3)) :=
-  forward_map_now numF (fun k => alookup k pos) beads.
+Definition fwd_model (beads : list (Z * list (Z * float))) (ints : list (list bool)) (pos : list (Z * fvec3))
+  : res (list (Z * fvec3)) :=
+  forward_map_py numF cmpF fm_avg_mode (fun k => alookup k pos) (tag_beads beads ints).
 
 Definition corr_ok (c : case) : bool :=
   match c with
@@ -110,8 +109,8 @@ Definition corr_ok (c : case) : bool :=
       | Err EName => Nat.eqb exc 1
       | Err _ => false
       end
-  | CFwd beads pos t exc out out_t _ _ =>
-      match fwd_model beads pos, fwd_model beads (translate t pos) with
+  | CFwd beads ints pos t exc out out_t _ _ =>
+      match fwd_model beads ints pos, fwd_model beads ints (translate t pos) with
       | Ok m, Ok mt => Nat.eqb exc 0 && beads_agree m out && beads_agree mt out_t
       | Err EKey, _ | _, Err EKey => Nat.eqb exc 1
       | _, _ => false
@@ -166,7 +165,7 @@ Definition prop_fail (c : case) : nat :=
                                                    | None => false end) ra)
            then 7%nat
       else 0%nat
-  | CFwd beads pos t exc out out_t own out_p =>
+  | CFwd beads _ pos t exc out out_t own out_p =>
       if negb (Nat.eqb exc 0) then 9%nat
       else if negb (forallb (fun b => is_ok (alookup (fst b) out)) beads && forallb (fun b => is_ok (alookup (fst b) out_t)) beads)
            then 10%nat
@@ -186,6 +185,6 @@ Definition case_class (c : case) : nat :=
   match c with
   | CEmbed nodes _ _ _ _ _ _ => if cls_index_not_key nodes then 1%nat else 0%nat
   | CRound has_conf _ _ _ _ _ _ _ _ => if cls_has_conformer has_conf then 2%nat else 0%nat
-  | CFwd beads _ _ _ _ _ _ _ => if cls_weight_not_one beads then 3%nat else 0%nat
+  | CFwd beads _ _ _ _ _ _ _ _ => if cls_weight_not_one beads then 3%nat else 0%nat
   | CSkip => 0%nat
   end.
